@@ -762,3 +762,64 @@ Proof.
   unfold after_obs. simpl. apply IH. apply reach_crash with (wk := wk_round_robin w); [exact R|].
   apply obs_sched_valid.
 Qed.
+
+(* ================================================================== *)
+Section Exact.
+Variable c : tool_cfg.
+Variable seed : Z.
+Variable es : list (uid * path).
+Hypothesis c_ok : cfg_ok c = true.
+
+(* what one invocation adds to the manifest: exactly the utterances it completed,
+   in order, except possibly the last one *)
+Lemma manifest_exact_l wk d sched n k :
+  valid_sched c seed es wk d sched ->
+  exists l, d_manifest (crash c d sched n k) = d_manifest d ++ l /\
+            (l = completed (firstn n sched) \/ l = removelast (completed (firstn n sched))).
+Proof.
+  intros V. destruct (crash_on_main c seed es c_ok wk d sched n k V) as [m [E F]].
+  rewrite <- (completed_filter (firstn n sched)), F, E. clear E F.
+  set (dl := delivered c seed es wk d).
+  assert (B : s_mbuf (boot c d) = []) by reflexivity.
+  assert (BD : d_manifest (s_disk (boot c d)) = d_manifest d) by (rewrite (boot_ok c c_ok d); reflexivity).
+  destruct (firstn_flat_map_cases item4 dl m) as [A | [l1 [x [l2 [t [D [T A]]]]]]];
+    fold (main4 dl) in A; rewrite A.
+  - destruct (exec_main4_manifest dl (boot c d) B) as [M Mb].
+    exists (map fst dl). rewrite completed_main4. split; [|left; reflexivity].
+    destruct k; simpl; rewrite ?Mb, ?app_nil_r, M, BD; reflexivity.
+  - fold (main4 l1). rewrite exec_app.
+    destruct (exec_main4_manifest l1 (boot c d) B) as [M Mb].
+    set (s1 := exec (boot c d) (main4 l1)) in *.
+    rewrite completed_app, completed_main4. simpl in T.
+    assert (TT : (t = 0 \/ t = 1 \/ t = 2 \/ t = 3)%nat) by lia.
+    destruct k; destruct TT as [ -> | [ -> | [ -> | -> ] ] ]; simpl;
+      rewrite ?Mb, ?app_nil_r, ?M, ?BD, ?removelast_last.
+    all: try (exists (map fst l1); split; [reflexivity | simpl; rewrite ?app_nil_r, ?removelast_last; auto]; fail).
+    exists (map fst l1 ++ [fst x]). split; [simpl; rewrite <- app_assoc; reflexivity | auto].
+Qed.
+
+(* once everything is listed, running the command again changes nothing *)
+Lemma rerun_noop_l wk d sched n k :
+  valid_sched c seed es wk d sched ->
+  (forall u, In u (map fst es) -> In u (listed_ids c (d_manifest d))) ->
+  crash c d sched n k = d.
+Proof.
+  intros [V1 V2] H.
+  assert (T : todo c es d = []).
+  { destruct (cfg_ok_inv c c_ok) as [M [Fl [_ [A _]]]].
+    unfold todo, open_manifest, work. rewrite A, Fl, M.
+    assert (G : forall its : list item, (forall it, In it its -> In (i_utt it) (map fst es)) ->
+              filter (fun it => negb (memz (i_utt it) (listed_ids c (d_manifest d)))) its = []).
+    { induction its as [|it r IH]; intros Hin; [reflexivity|]. simpl.
+      assert (Mz : memz (i_utt it) (listed_ids c (d_manifest d)) = true).
+      { apply memz_spec. apply H. apply Hin. left; reflexivity. }
+      rewrite Mz. simpl. apply IH. intros it' I'. apply Hin. right; exact I'. }
+    apply G. intros it I. rewrite <- (index_from_utts es 0). apply in_map. exact I. }
+  assert (S : sched = []).
+  { unfold delivered in V1. rewrite T in V1, V2. simpl in V1, V2.
+    destruct sched as [|o r]; [reflexivity|]. exfalso.
+    destruct o; try (simpl in V1; discriminate). apply (V2 u). left; reflexivity. }
+  subst sched. unfold crash, crash_state. rewrite firstn_nil. simpl.
+  rewrite (boot_ok c c_ok d). destruct d as [fs m]. destruct k; simpl; rewrite ?app_nil_r; reflexivity.
+Qed.
+End Exact.
